@@ -1,4 +1,5 @@
 """Structural formula check of the two sync functions of class tm on their E6 normal form (used by C03 R03.2)."""
+import ast
 from .normal import Normalizer, Shapes, Unsupported, is_num, num, show
 
 RET = {'MatrixExp3': (3, 3), 'VecToso3': (3, 3), 'so3ToVec': (3,), 'MatrixLog3': (3, 3), 'TransToRp': ('tuple', ((3, 3), (3,)))}
@@ -23,6 +24,22 @@ def _field_writes(term, acc=None):
         _field_writes(term[1], acc)
         acc[term[2]] = term[3]
     return acc
+
+
+def _stack_axis(t):
+    """0 for vstack / concatenate along axis 0, 1 for hstack / concatenate along axis 1 (1-D parts: hstack and plain concatenate join
+    end to end, reported as 1 / 0 alike), else None"""
+    if not (isinstance(t, tuple) and t and t[0] == 'call'):
+        return None
+    n = _callname(t)
+    if n == 'vstack':
+        return 0
+    if n == 'hstack':
+        return 1
+    if n == 'concatenate':
+        ax = dict(t[3]).get('axis', num(0)) if len(t) > 3 else num(0)
+        return int(ax[1]) if (isinstance(ax, tuple) and ax[0] == 'num' and int(ax[1]) in (0, 1)) else None
+    return None
 
 
 def _strip_shape_ops(t):
@@ -67,6 +84,10 @@ def check_tm_sync_formulas(model, rep, tmcls):
     for name in ('TAAtoTM', 'TMtoTAA'):
         fi = tmcls.methods.get(name)
         nz = Normalizer(fi.node, shapes, [], None, True, {'mr', 'np', 'R'})
+        if any(isinstance(c_, ast.Call) and isinstance(c_.func, ast.Attribute) and c_.func.attr in tmcls.methods and c_.func.attr.startswith('_')
+               and not c_.func.attr.startswith('__') for c_ in ast.walk(fi.node)):
+            from . import tv as _tv
+            nz = _tv._normalizer(model, fi.module, fi.node, name, False, tmcls)        # private / static helpers of the class inlined
         try:
             env = nz.run_env()
         except Unsupported as e:
@@ -81,10 +102,10 @@ def check_tm_sync_formulas(model, rep, tmcls):
             tmv = w.get('TM')
             # the TAA the matrix is built from: either the incoming field or its (6,1) reshape stored first
             ok, msg = False, 'TM is %s' % show(tmv)[:160] if tmv is not None else 'TM not assigned'
-            if tmv is not None and _callname(tmv) == 'vstack' and tmv[2] and tmv[2][0][0] == 'tuple' and len(tmv[2][0][1]) == 2:
+            if tmv is not None and _stack_axis(tmv) == 0 and tmv[2] and tmv[2][0][0] == 'tuple' and len(tmv[2][0][1]) == 2:
                 top, last = tmv[2][0][1]
                 last_ok = last[0] == 'block' and [c[4] for c in last[2]] == [num(0), num(0), num(0), num(1)]
-                if _callname(top) == 'hstack' and top[2][0][0] == 'tuple' and len(top[2][0][1]) == 2:
+                if _stack_axis(top) == 1 and top[2][0][0] == 'tuple' and len(top[2][0][1]) == 2:
                     rot, tra = top[2][0][1]
                     rot_ok = _callname(rot) == 'MatrixExp3' and _callname(_args(rot)[0]) == 'VecToso3'
                     src_ok = rot_ok and _sel(_args(_args(rot)[0])[0], 'TAA', 3, 6)
@@ -99,10 +120,19 @@ def check_tm_sync_formulas(model, rep, tmcls):
         else:
             taa = w.get('TAA')
             ok, msg = False, 'TAA is %s' % show(taa)[:160] if taa is not None else 'TAA not assigned'
-            if taa is not None and _callname(taa) == 'vstack' and taa[2] and taa[2][0][0] == 'tuple' and len(taa[2][0][1]) == 2:
+            def is_rp(t, k):
+                return isinstance(t, tuple) and t[0] == 'unpack' and t[2] == k and _callname(t[1]) == 'TransToRp' and _args(t[1]) == (('attr', self0, 'TM'),)
+            if taa is not None and _callname(taa) == 'reshape' and len(taa[2]) == 2 and taa[2][1] == ('tuple', (num(6), num(1))) \
+                    and _stack_axis(taa[2][0]) in (0, 1) and taa[2][0][2][0][0] == 'tuple' and len(taa[2][0][2][0][1]) == 2:
+                # the two 3-vectors joined end to end, then made a column: the same (6,1) column
+                pos, r = taa[2][0][2][0][1]
+                pos_ok = is_rp(_strip_shape_ops(pos), 1)
+                r = _strip_shape_ops(r)
+                rot_ok = _callname(r) == 'so3ToVec' and _callname(_args(r)[0]) == 'MatrixLog3' and is_rp(_args(_args(r)[0])[0], 0)
+                ok = pos_ok and rot_ok
+                msg = 'position part = TransToRp(TM)[1]: %s; rotation part = so3ToVec(MatrixLog3(TransToRp(TM)[0])): %s' % (pos_ok, rot_ok)
+            if taa is not None and _stack_axis(taa) == 0 and taa[2] and taa[2][0][0] == 'tuple' and len(taa[2][0][1]) == 2:
                 pos, rotv = taa[2][0][1]
-                def is_rp(t, k):
-                    return isinstance(t, tuple) and t[0] == 'unpack' and t[2] == k and _callname(t[1]) == 'TransToRp' and _args(t[1]) == (('attr', self0, 'TM'),)
 
                 def is_col(t):
                     return _callname(t) == 'reshape' and isinstance(t[1], tuple) and t[1][0] == 'meth' and len(t[2]) == 2 and t[2][1] == ('tuple', (num(3), num(1)))
